@@ -24,7 +24,7 @@ def _matrix(tier, wd):
     with open(cf, "w") as f:
         for c in cases:
             f.write(json.dumps(c) + "\n")
-    rc, text = vlib.run_bin("drive_server", ["matrix", cf, "lite" if tier == "quick" else "full"], timeout=3000)
+    rc, text = vlib.run_bin("drive_server", ["matrix", cf, "lite"], timeout=3000)
     if rc != 0:
         print(text[-3000:])
         return {"violated": None, "states": res["states"], "generated": res["generated"], "cases": len(cases),
@@ -95,7 +95,7 @@ def run(tier):
         "evaluations": m["requests"] + r["calls"],
         "distinct_nontrivial": m.get("cases", 0),
         "rule": "X: ServerAuth.tla - every administrative history (create with / without key, open, close, set / rotate "
-                "/ remove key) up to 3 (thorough 5) operations; invariants Confined, Uniform, RevokedUseless on the "
+                "/ remove key) up to 3 (thorough 4) operations; invariants Confined, Uniform, RevokedUseless on the "
                 "request matrix of every reachable state. R: each history is replayed on the real router (plain, with a "
                 "restart at the end, leaf histories also with a restart after every operation); each operation's status "
                 "class must be the model's; then the matrix - 6 scopes (root, primary, a, b, missing, malformed) x every "
